@@ -333,6 +333,20 @@ TRUSTED_BASE = [
     "Validated against CPython on every run (Run/SrcEvalLint.lean vs the real analyze_policy / analyze_policyset on the algorithm-dependent issues); "
     "`_resource_covers` (existing pytolean) and `_first_applicable_unreachable` (`set(e)` = the list of its members, `issubset`) are translated and "
     "proved equal to the model helpers (Run/C17_lint_helpers_translated.lean); the helper model Lint.actions (`_actions`) is tied only by that differential run",
+    "for the translated BUNDLED SCHEMA dsl/policy.schema.json (C06, C17; harness/pytolean_schema.py, lean/Rbacx/Model/JsonSchema.lean, validated against "
+    "the real jsonschema validator built from the same file and against rbacx.dsl.validate.validate_policy on every C06 run by Run/SrcEvalSchema.lean — "
+    "every generated document, accepted or rejected, + ~400 hostile shapes, both directions) the trusted readings are: SHALLOW EMBEDDING — a schema "
+    "object is the conjunction of its keywords, a sub-schema a function PyVal -> Bool, `$ref: #/$defs/X` a call of the definition X costing one unit of "
+    "fuel (the obligation's theorems hold for EVERY fuel; the evaluator uses 2*size+16; below the needed budget `not` / `oneOf` make the verdict "
+    "fuel-dependent, which only the comparison rules out for the evaluator's budget); object member order has no meaning (keywords are emitted in a "
+    "canonical order, `properties` sorted by key); $schema / title / description are annotations, `$defs` the table of definitions; jsonschema's "
+    "keyword semantics on Python values: each keyword constrains its own instance type and passes on others (properties / required / "
+    "additionalProperties:false / minProperties / maxProperties: dict; items / prefixItems / minItems / maxItems: list; minLength: str, in code "
+    "points), type number = int | float but not bool, integer also an integral float, enum (strings only) = a str in the list, oneOf = exactly one "
+    "branch, `format` is NOT asserted (validate_policy installs no format checker); a dict is an association list with distinct keys (a Python dict; "
+    "`type: integer` is the one meaning the current schema does not exercise); any keyword outside this set, a non-local $ref, a non-string enum, "
+    "a schema-valued additionalProperties are REFUSED by the translator and fail the named obligation C06_schema; documents holding lone surrogates "
+    "or non-string keys are outside the value universe and not compared",
 ]
 
 
